@@ -1109,8 +1109,41 @@ PLAN_C04 = {
 }
 
 
+def c04_sqlgen_traces(vd, stats, tier):
+    """code -> spec: events of the WITH-sequencing / CTE cache machine recorded while the option matrix was generated are
+    validated by TLC against spec/Trace_SqlGen.tla (UniqueNames, DefBeforeUse, MissOnlyIfAbsent, HitSameMeaning)"""
+    from . import exec_traces
+    exec_traces.stop()
+    prefix = os.path.join(common.scratch(), "C04sql_trace")
+    tr = rc.TlcRun()
+    traces = exec_traces.read_sqlgen_traces(prefix, limit=(6000 if tier == "quick" else 60000))
+    rej = exec_traces.validate_sqlgen(traces, tr, "events of %d statements put into WITH form validated by Trace_SqlGen" % len(traces))
+    for ti, (law, idx) in sorted(rej.items()):
+        stats["sqlgen_trace:rejected"] += 1
+        vd.violation({"kind": "sqlgen-trace", "law": law, "event_index": idx, "event": traces[ti][idx], "trace": traces[ti]},
+                     tag="sqlgen:" + law)
+    stats["sqlgen_trace:accepted"] += len(traces) - len(rej)
+    # binding demonstration: a recorded trace whose hit is given a different content signature (what the repaired stale-key
+    # defect D10 produced) must be rejected by the same trace specification
+    withhit = [t for t in traces if any(e["sqlgen"] == "hit" for e in t)]
+    if withhit:
+        bad = json.loads(json.dumps(withhit[0]))
+        for e in bad:
+            if e["sqlgen"] == "hit":
+                e["sig"] = "corrupted000"
+                break
+        r2 = exec_traces.validate_sqlgen([bad], tr, "binding demonstration: a hit with a different content signature must be rejected")
+        if not r2 or r2[0][0] != "HitSameMeaning":
+            raise common.MachineryError("Trace_SqlGen accepted a corrupted trace")
+        stats["sqlgen_trace:corrupted_trace_rejected"] = 1
+    return {"sqlgen_statements_validated": len(traces), "sqlgen_statements_with_cache_hits": len(withhit),
+            "sqlgen_events": sum(len(t) for t in traces), "states": tr.states, "transitions": tr.transitions, "tlc_runs": tr.runs}
+
+
 def check_C04(tier, replay=None):
-    return generic_plan("C04", tier, PLAN_C04, w_c04, replay, extra={"full": tier == "thorough"})
+    if not replay:
+        os.environ["DATA_ALGEBRA_VERIF_TRACE"] = os.path.join(common.scratch(), "C04sql_trace")
+    return generic_plan("C04", tier, PLAN_C04, w_c04, replay, extra={"full": tier == "thorough"}, post=c04_sqlgen_traces)
 
 
 CHECKS["C04"] = check_C04
